@@ -431,6 +431,26 @@ theorem handle6_file (t : FTable) (d : Sys.Pkt6) (r : Sys.Resp6) :
             | some (.v6 a) => (some { r with opts := r.opts ++ [(3, encIANA (ia.take 4) a)] }, false)
             | _ => (some r, false) := rfl
 
+theorem handle6_pd (out : List PdAns) (d : Sys.Pkt6) (r : Sys.Resp6) :
+    handle6 (.pd out) d (some r) =
+      match d.msg with
+      | none => (none, true)
+      | some m =>
+        match lookup 1 m.opts with
+        | none => (none, true)
+        | some _ => (some { r with opts := r.opts ++ out.map (fun a => (25, encIAPD a)) }, false) := rfl
+
+theorem filter_append_pd (c : Nat) (hc : c ≠ 25) (l : Opts) (out : List PdAns) :
+    (l ++ out.map (fun a => (25, encIAPD a))).filter (fun o => o.1 == c) = l.filter (fun o => o.1 == c) := by
+  rw [List.filter_append]
+  have : (out.map (fun a => ((25 : Nat), encIAPD a))).filter (fun o => o.1 == c) = [] := by
+    apply List.filter_eq_nil_iff.mpr
+    intro o ho
+    obtain ⟨a, _, rfl⟩ := List.mem_map.mp ho
+    simp only [beq_iff_eq]
+    exact fun h => hc h.symm
+  rw [this, List.append_nil]
+
 theorem lookup_of_filter (c : Nat) (l l' : Opts)
     (h : l.filter (fun o => o.1 == c) = l'.filter (fun o => o.1 == c)) : lookup c l = lookup c l' := by
   have := congrArg List.head? h
@@ -467,6 +487,12 @@ theorem handle6_some (e : Elem6) (d : Sys.Pkt6) (r x : Sys.Resp6)
       constructor <;> (apply lookup_of_filter; simp)
     repeat' split at h
     all_goals (first | (cases h; done) | (cases h; exact ⟨rfl, rfl, rfl, rfl⟩) | (cases h; exact ⟨rfl, rfl, (happ _).1, (happ _).2⟩))
+  | pd out =>
+    rw [handle6_pd] at h
+    repeat' split at h
+    all_goals (first | (cases h; done) |
+      (cases h; exact ⟨rfl, rfl, lookup_of_filter 1 _ _ (filter_append_pd 1 (by decide) _ _),
+        lookup_of_filter 14 _ _ (filter_append_pd 14 (by decide) _ _)⟩))
 
 theorem chain6_inv (chain : List Elem6) (d : Sys.Pkt6) (r0 resp : Sys.Resp6)
     (hc : (runChain (chain.map handle6) d 0 (some r0)).1 = some resp) :
